@@ -66,8 +66,30 @@ AssocTrees == {B(o2, B(o1, a, b), c) : o1 \in ArOps, o2 \in ArOps, a \in {V("x")
               \cup {B(o1, a, B(o2, b, c)) : o1 \in ArOps, o2 \in ArOps, a \in {V("x"), Num(2, 1)}, b \in {V("y"), Num(2, 1)}, c \in {V("x"), Num(-1, 1)}}
               \cup {B(o2, B(o1, a, b), c) : o1 \in LgOps, o2 \in LgOps, a \in {V("p"), Num(1, 1)}, b \in {V("q"), Num(0, 1)}, c \in {V("p"), V("q")}}
               \cup {B(o1, a, B(o2, b, c)) : o1 \in LgOps, o2 \in LgOps, a \in {V("p"), Num(1, 1)}, b \in {V("q"), Num(0, 1)}, c \in {V("p"), V("q")}}
+\* family "idlog": and / or whose other operands are identity (or absorbing) constants, around an operand
+\* that is not a truth value (an arithmetic expression over Booleans, a numeric variable): dropping the
+\* constants must leave the operand's truth value, not the operand
+IdOperands == {U("neg", V("p")), B("add", V("p"), Num(1, 1)), B("mul", Num(2, 1), V("p")), B("sub", V("p"), V("q")),
+               U("abs", U("neg", V("p"))), N2("max", V("p"), Num(2, 1)), B("add", V("x"), Num(1, 1)), U("neg", V("x")), V("x"), V("p")}
+IdCore == {N2(o, a, c) : o \in {"and", "or"}, a \in IdOperands, c \in Consts}
+          \cup {N2(o, c, a) : o \in {"and", "or"}, a \in IdOperands, c \in Consts}
+          \cup {N1(o, a) : o \in {"and", "or"}, a \in IdOperands}
+          \cup {N3(o, c, a, d) : o \in {"and", "or"}, a \in IdOperands, c \in {Num(0, 1), Num(1, 1)}, d \in {Num(1, 1), Num(2, 1), Num(0, 1)}}
+          \cup {B(o, a, c) : o \in {"b_and", "b_or"}, a \in IdOperands, c \in {Num(0, 1), Num(1, 1), Num(2, 1)}}
+          \cup {B(o, c, a) : o \in {"b_and", "b_or"}, a \in IdOperands, c \in {Num(0, 1), Num(1, 1), Num(2, 1)}}
+          \cup {N2(o, N2(o, a, c), V("q")) : o \in {"and", "or"}, a \in IdOperands, c \in {Num(0, 1), Num(1, 1)}}
+IdTrees == IdCore \cup {B("mul", Num(3, 1), t) : t \in IdCore} \cup {B("add", t, V("y")) : t \in IdCore} \cup {U("not", t) : t \in IdCore}
+PickId == /\ Family = "idlog" /\ done = "no" /\ (\E t \in IdTrees : tree' = t) /\ done' = "yes" /\ UNCHANGED base
+\* family "prune": a zero or variable denominator inside an operand that a later pass could drop without
+\* looking at it: a min / max operand another operand dominates whatever the variables are, a logic
+\* comparison that holds for both truth values
+PruneTrees == UNION {{N2("max", B("add", V("x"), Num(9, 1)), B("mul", Num(0, 1), t)), N2("max", B("mul", Num(0, 1), t), Num(5, 1)),
+                      N2("min", B("sub", V("x"), Num(9, 1)), U("abs", t)), N2("min", U("abs", t), Num(-1, 1)),
+                      N3("max", V("x"), Num(7, 1), B("mul", t, Num(0, 1))),
+                      N2("or", V("p"), t), N2("and", t, V("p")), U("not", N2("or", V("p"), t))} : t \in DivBases}
+PickPrune == /\ Family = "prune" /\ done = "no" /\ (\E t \in PruneTrees : tree' = t) /\ done' = "yes" /\ UNCHANGED base
 PickAssoc == /\ Family = "assoc" /\ done = "no" /\ (\E t \in AssocTrees : tree' = t) /\ done' = "yes" /\ UNCHANGED base
-PickBase == /\ Family \notin {"d1", "assoc"} /\ done = "no"
+PickBase == /\ Family \notin {"d1", "assoc", "idlog", "prune"} /\ done = "no"
             /\ \E t \in (CASE Family = "d2num" -> NumD1_(0) \ NumLeaves [] Family = "zero" -> DivBases [] Family = "negsum" -> SumBases
                            [] OTHER -> LogD1_(0) \ LogLeaves) : base' = t
             /\ done' = "base" /\ UNCHANGED tree
@@ -77,7 +99,7 @@ Wrap == /\ done = "base"
                        [] Family = "negsum" -> NegWrap(base)
                        [] OTHER -> WrapLog(base) \cup WrapLogAsNum(base)) : tree' = t
         /\ done' = "yes" /\ UNCHANGED base
-Next == PickD1 \/ PickAssoc \/ PickBase \/ Wrap
+Next == PickD1 \/ PickAssoc \/ PickId \/ PickPrune \/ PickBase \/ Wrap
 Spec == Init /\ [][Next]_vars
 Emit == done = "yes" => PrintT(<<"CASE", ToJson([tree |-> tree])>>)
 =============================================================================
